@@ -54,7 +54,6 @@ def cases(tier, seed):
             grp = "g%d_%s" % (si, solver)
             for k in range(0, K + 1):
                 prm = dict(base, maxiter=k, tol=tol, abstol=kc.ABSTOL_MIN)
-                if prm["ca"] and k == 0: prm["ca"] = 0
                 cid = "r%d" % len(out)
                 if solver != "lgmres":
                     add(kc.solve_line(cid, solver, side, S, **prm), "ref", solver=solver, group=grp, k=k)
